@@ -50,6 +50,8 @@ class HistoryExplorer:
         self.violations = []
         self.outcomes = {}
         self.last_level = []
+        self._probing = False
+        self.probe_transitions = 0
 
     def build(self, hist):
         self.w.restore()
@@ -67,7 +69,7 @@ class HistoryExplorer:
         n_restores = 0
         for hist in hists:
             ctx = self.build(hist)
-            evs = model.events(ctx)
+            evs = model.final_events(ctx) if self._probing else model.events(ctx)
             for ev in evs:
                 n_restores += 1
                 if n_restores % self.validate_every == 0:
@@ -134,6 +136,22 @@ class HistoryExplorer:
             if self.time_cap and time.time() - t0 > self.time_cap and depth < self.max_depth:
                 self.capped = f"time cap {self.time_cap}s exceeded after depth {depth}"
                 break
+        # probe level: every state of the deepest completed level is extended by the model's
+        # observation-only events (final_events), invariants checked, nothing expanded
+        # further.  A violation that needs max_depth events plus one observing query is
+        # found without paying for the full next level.
+        if hasattr(model, "final_events") and frontier and self.capped is None:
+            self._probing = True
+            results = pmap(self._expand, chunked(frontier, 64))
+            self._probing = False
+            for ntrans, _out, viols, outcomes in results:
+                self.probe_transitions += ntrans
+                for k, v in outcomes.items():
+                    self.outcomes[k] = self.outcomes.get(k, 0) + v
+                for v in viols:
+                    if len(self.violations) < max_viol:
+                        self.violations.append(v)
+            self.transitions += self.probe_transitions
         w.restore()
         return self
 
@@ -145,5 +163,6 @@ class HistoryExplorer:
             "depth_bound": self.max_depth,
             "levels": self.levels,
             "capped": self.capped,
+            "probe_level_transitions": self.probe_transitions,
             "distinct_outcomes": dict(sorted(self.outcomes.items())),
         }
